@@ -310,6 +310,17 @@ def run_case(spec, ctx):
                         ctx.violation("ScipyIVP.restart", "accelerations / multipliers reported for the continued run differ from those of the uninterrupted run at the same states",
                                       {**exk, "field": fld, "max_diff": float(np.abs(a_ - b_).max()) if a_.shape == b_.shape else "shape"})
                         break
+            if sc in ("ball", "balls") and solver in ("Moreau", "Rattle") and getattr(second, "P_F", None) is not None and getattr(full, "P_F", None) is not None:
+                # contact data keep their meaning: the friction percussions of the continued run are those of the uninterrupted run,
+                # component by component (the tangent directions they refer to are part of the model)
+                a_, b_ = np.asarray(second.P_F)[1:m], np.asarray(full.P_F)[k + 1:k + m]
+                a_N, b_N = np.asarray(second.P_N)[1:m], np.asarray(full.P_N)[k + 1:k + m]
+                if a_.size and a_.shape == b_.shape:
+                    ctx.mon("fields")
+                    scale_ = 1e-12 + np.abs(b_).max()
+                    if np.abs(a_N - b_N).max() <= 1e-6 * (1e-12 + np.abs(b_N).max()) and np.abs(a_ - b_).max() > 1e-5 * scale_ + 1e-9:
+                        ctx.violation(f"{solver}.restart", "friction percussions of the continued run differ component by component from those of the uninterrupted run although the normal percussions agree (tangent directions changed by the re-initialisation)",
+                                      {**exk, "max_dP_F": float(np.abs(a_ - b_).max()), "max_P_F": float(np.abs(b_).max())})
             if not (dq <= 1e-6 * (1 + np.abs(qF).max()) and du <= 1e-5 * (1 + np.abs(uF).max())):
                 ctx.violation(f"{solver}.restart", "trajectory continued from the re-initialised system differs from the uninterrupted run",
                               {**exk, "max_dq": float(dq), "max_du": float(du)}, key=_kf_traj(sc, det))
